@@ -9,7 +9,7 @@ Oracle, after every accepted step: FortranWriter either refuses
 `gfortran -fopenmp|-fopenacc -fsyntax-only` (batched) and (2) satisfies an
 independent structural predicate computed on the TEXT: no orphaned loop
 directive, no nested parallel regions, every collapse(n) is followed by n
-perfectly nested rectangular DO loops, begin/end directives match.
+perfectly nested DO loops, begin/end directives match.
 """
 import re
 
@@ -268,7 +268,7 @@ def is_region(name, family):
 
 def collapse_error(lines, pos, count):
     """collapse(n) at lines[pos]: next n DO loops must be perfectly nested
-    and rectangular."""
+    (rectangularity is left to the compiler)."""
     idx = pos + 1
     loop_vars = []
     for level in range(count):
